@@ -6,6 +6,8 @@ import NakenVerif.FileIO.WdcImpl
 import NakenVerif.FileIO.Uf2Impl
 import NakenVerif.FileIO.ElfImpl
 import NakenVerif.FileIO.ElfReadImpl
+import NakenVerif.Generated.Limits
+import NakenVerif.Generated.SymbolsLayout
 import Std.Data.HashMap
 import NakenVerif.Generated.CpuList
 namespace Driver.FileIO
@@ -55,17 +57,33 @@ def srecSizeOf (cpu : String) : Nat :=
   | some c => c.srecSize
   | none => 0
 
-/-- `name=hexaddr[!],...` → the exported symbols in order -/
+/-- `Symbols::append` calls on a fresh table, in `Symbols::iterate` order: an entry goes to the first pool of
+SYMBOLS_HEAP_SIZE bytes with `ptr + token_len + sizeof(Entry) < len` (so a short name can land in an earlier pool than
+its predecessor); a name that is already there or longer than 254 characters is refused.
+Entry = (name, address, exported). -/
+def symPools (calls : List (List UInt8 × Nat × Bool)) : List (List UInt8 × Nat × Bool) :=
+  let heap := NakenVerif.Generated.symbolsHeapSize
+  let hdr := NakenVerif.Generated.symbolEntryHeader
+  let pools : Array (Nat × Array (List UInt8 × Nat × Bool)) :=
+    calls.foldl (fun (pools : Array (Nat × Array (List UInt8 × Nat × Bool))) c =>
+      let tl := c.1.length + 1
+      if tl > 255 ∨ pools.any (fun p => p.2.any (fun e => e.1 == c.1)) then pools else
+      match pools.findIdx? (fun p => p.1 + tl + hdr < heap) with
+      | some i => pools.modify i (fun p => (p.1 + tl + hdr, p.2.push c))
+      | none => pools.push (tl + hdr, #[c])) #[]
+  pools.toList.flatMap (fun p => p.2.toList)
+
+/-- `name=hexaddr[!],...` → the exported symbols in `Symbols::iterate` order -/
 def parseSyms (s : String) : List ElfImpl.Sym :=
   if s == "-" then [] else
-  (s.splitOn ",").filterMap (fun e =>
-    if e.endsWith "!" then
-      let body := (e.toList.dropLast)
-      let rev := body.reverse
-      let addr := (rev.takeWhile (· ≠ '=')).reverse
-      let name := (rev.dropWhile (· ≠ '=')).drop 1 |>.reverse
-      some (charsToBytes name, parseHexNat addr)
-    else none)
+  let all := (s.splitOn ",").map (fun e =>
+    let ex := e.endsWith "!"
+    let body := if ex then e.toList.dropLast else e.toList
+    let rev := body.reverse
+    let addr := (rev.takeWhile (· ≠ '=')).reverse
+    let name := (rev.dropWhile (· ≠ '=')).drop 1 |>.reverse
+    (charsToBytes name, parseHexNat addr, ex))
+  (symPools all).filterMap (fun e => if e.2.2 then some (e.1, e.2.1) else none)
 
 def cpuInfoOf (cpu : String) : Option CpuInfo :=
   let name := if cpu == "-" then "msp430" else cpu
@@ -135,12 +153,17 @@ def showLoaded (typ : String) (r : ReadImpl.Loaded) : String :=
   "ret=" ++ toString (if ok then 0 else r.ret) ++ " type=" ++ typ ++ " low=" ++ natHex r.low ++ " high=" ++ natHex r.high ++
     " end=l cpu=" ++ (if ok then "msp430" else "-") ++ " nz=" ++ dumpNonZero r.writes ++ " syms=-"
 
-def bytesToString (bs : List UInt8) : String := String.ofList (bs.map (fun b => Char.ofNat b.toNat))
+def upperDigit (d : Nat) : Char := if d < 10 then Char.ofNat (48 + d) else Char.ofNat (55 + d)
 
-/-- `Symbols::append` on a fresh table: a name that is already there or longer than 254 characters is refused -/
+/-- a symbol name as the harness prints it: bytes outside 0x21..0x7e and `,` `=` `%` as %XX -/
+def bytesToString (bs : List UInt8) : String :=
+  bs.foldl (fun (s : String) b =>
+    if b.toNat < 0x21 ∨ b.toNat > 0x7e ∨ b == 44 ∨ b == 61 ∨ b == 37 then
+      ((s.push '%').push (upperDigit (b.toNat / 16))).push (upperDigit (b.toNat % 16))
+    else s.push (Char.ofNat b.toNat)) ""
+
 def symTable (calls : List (List UInt8 × Nat)) : List (List UInt8 × Nat) :=
-  (calls.foldl (fun (acc : List (List UInt8 × Nat)) (c : List UInt8 × Nat) =>
-    if c.1.length + 1 > 255 ∨ acc.any (fun e => e.1 == c.1) then acc else c :: acc) []).reverse
+  (symPools (calls.map (fun c => (c.1, c.2, false)))).map (fun e => (e.1, e.2.1))
 
 def showSyms (t : List (List UInt8 × Nat)) : String :=
   if t.isEmpty then "-" else ",".intercalate (t.map (fun e => bytesToString e.1 ++ "=" ++ natHex e.2))
@@ -169,7 +192,7 @@ def handleRd (args : List String) : String :=
     else if fmt == "wdc" then
       let r := WdcImpl.read bytes
       showLoaded "wdc" { ret := r.ret, writes := r.writes, low := r.low, high := r.high }
-    else if fmt == "elf" then showElf (ElfReadImpl.read 16777216 bytes)
+    else if fmt == "elf" then showElf (ElfReadImpl.read 1048576 bytes)
     else "not-modelled"
   | _ => "bad-op"
 end Driver.FileIO
